@@ -14,6 +14,7 @@ import (
 	"time"
 
 	"verif/gosym"
+	"verif/regosym"
 	"verif/smt"
 )
 
@@ -49,6 +50,7 @@ type finding struct {
 	Harness  string `json:"harness,omitempty"`
 	Status   string `json:"status"` // known | fixed
 	Commit   string `json:"commit,omitempty"`
+	Signature string `json:"signature,omitempty"`
 	What     string `json:"what"`
 }
 
@@ -446,6 +448,9 @@ func cmdReplay(args []string) int {
 	if len(args) < 1 {
 		usage()
 	}
+	if b, err := os.ReadFile(filepath.Join(args[0], "inputs.json")); err == nil && strings.Contains(string(b), "\"kind\": \"rego-verdict\"") {
+		return replayRego(args[0])
+	}
 	ok, out := nativeReplay(args[0], "")
 	fmt.Print(out)
 	if ok {
@@ -512,3 +517,42 @@ func (c *checkCtx) writeEvidence() {
 }
 
 func cmdSelftest(args []string) int { return 0 }
+
+// replayRego re-runs a regosym counterexample (profile.yaml + data.jsonld) through the real
+// entry point built from /repo's working tree and compares with the recorded reference verdict.
+func replayRego(dir string) int {
+	var in struct {
+		Expected []string `json:"expected"`
+		Program  string   `json:"program"`
+	}
+	b, _ := os.ReadFile(filepath.Join(dir, "inputs.json"))
+	json.Unmarshal(b, &in)
+	prof, _ := os.ReadFile(filepath.Join(dir, "profile.yaml"))
+	data, _ := os.ReadFile(filepath.Join(dir, "data.jsonld"))
+	work := filepath.Join(verifDir(), ".work", fmt.Sprintf("replay-%d", os.Getpid()))
+	os.MkdirAll(work, 0o755)
+	defer os.RemoveAll(work)
+	drv, err := regosym.BuildDriver(repoDir, verifDir(), work)
+	if err != nil {
+		fmt.Println(err)
+		return 2
+	}
+	outs, err := drv.Validate([]regosym.ValIn{{Profile: string(prof), Data: string(data)}})
+	if err != nil || outs[0].Error != "" {
+		fmt.Println("validation failed:", err, outs[0].Error)
+		return 2
+	}
+	actual, conforms, err := regosym.RealResults(outs[0].Report)
+	if err != nil {
+		fmt.Println(err)
+		return 2
+	}
+	sort.Strings(in.Expected)
+	fmt.Printf("program:   %s\nreference: %v\nreal:      %v (conforms=%v)\n", in.Program, in.Expected, actual, conforms)
+	if strings.Join(actual, ",") != strings.Join(in.Expected, ",") {
+		fmt.Println("REPRODUCED")
+		return 1
+	}
+	fmt.Println("NOT REPRODUCED")
+	return 0
+}
